@@ -69,8 +69,9 @@ def gh(index, rep):
                             "NO_RELOCATION_KCALS_GROWN": Path(("grown_norel",)), "CROP_WASTE_DISTRIBUTION": Rat.atom(("Wd",)),
                             "OG_FRACTION_FAT": Rat.atom(("ff",)), "OG_FRACTION_PROTEIN": Rat.atom(("fp",))}, "self")
             env = {"self": obj, "constants_for_params": Path(("c",)), "greenhouse_fraction_area": gfa}
-            # evaluate only up to the construction of crops_produced (first top-level statement)
-            it.exec_block(fn.body[:1], env)
+            # evaluate up to (not including) the statement that builds the production Food object
+            upto = next((i for i, st in enumerate(fn.body) if any(isinstance(c, ast.Call) and dotted(c.func) == "Food" for c in ast.walk(st))), 1)
+            it.exec_block([st for st in fn.body[:upto] if not (isinstance(st, ast.Expr) and isinstance(st.value, ast.Constant))], env)
             return env.get("crops_produced")
 
         try:
